@@ -55,6 +55,11 @@ Definition meta_type (k : string) : option mtype :=
 Definition time_standard : bool :=
   marshal_uses_time_safe_append && append_time_is_standard_ext && append_recurses_into_containers.
 
+(* the three skip conditions of MarshalMsg the model's [marshal] transcribes (raw field already memoised,
+   raw field with a reserved name, memoised field with a reserved name), as found in the source text *)
+Definition marshal_shape_ok : bool :=
+  marshal_skips_memoized_raw && marshal_skips_reserved_raw && marshal_skips_reserved_memo.
+
 (* ---------- decoders ---------- *)
 (* vmihailenco/msgpack with UseLooseInterfaceDecoding (the msgpack /1/events path):
    bin -> string, float32 -> float64 ([widen] is Go's float64(float32), supplied by the harness) *)
